@@ -328,6 +328,14 @@ func (m *objectCacheStorageMiddleware) PutObjectTagging(ctx context.Context, buc
 	return err
 }
 
+func (m *objectCacheStorageMiddleware) TransitionObjectStorageClass(ctx context.Context, bucketName storage.BucketName, key storage.ObjectKey, targetStorageClass string, opts *storage.TransitionObjectStorageClassOptions) error {
+	// Cached Object metadata includes the storage class, so a transition must
+	// invalidate it like every other mutation of the object.
+	err := m.Next.TransitionObjectStorageClass(ctx, bucketName, key, targetStorageClass, opts)
+	m.invalidateObjectCaches(ctx, bucketName, key)
+	return err
+}
+
 func (m *objectCacheStorageMiddleware) DeleteObjectTagging(ctx context.Context, bucketName storage.BucketName, key storage.ObjectKey, opts *storage.ObjectTaggingOptions) error {
 	err := m.Next.DeleteObjectTagging(ctx, bucketName, key, opts)
 	m.invalidateObjectCaches(ctx, bucketName, key)
